@@ -27,6 +27,7 @@ type c04Case struct {
 	Class   string `json:"class"`
 	Entry   string `json:"entry"`
 	Data    []byte `json:"data"` // base64 in JSON: may be invalid UTF-8
+	Debug   bool   `json:"debug"`
 	Text    string `json:"text_preview"`
 }
 
@@ -221,6 +222,7 @@ func genC04(t *rapid.T) c04Case {
 	c := c04Case{
 		Profile: rapid.IntRange(0, len(c04Profiles)-1).Draw(t, "profile"),
 		Entry:   rapid.SampledFrom([]string{"Validate", "ValidateWithConfiguration", "ValidateCompiled", "ValidateCompiledWithConfiguration", "cli"}).Draw(t, "entry"),
+		Debug:   rapid.Bool().Draw(t, "debug"),
 	}
 	g := smallGraph(t)
 	valid := g.JSONLD(genLDOpts(t, len(g.Nodes)))
@@ -345,10 +347,10 @@ func decideC04(c c04Case) ev.Verdict {
 	var res call
 	switch c.Entry {
 	case "Validate":
-		res = guard(func() (string, error) { return pkg.Validate(profile, data, false, nil) })
+		res = guard(func() (string, error) { return pkg.Validate(profile, data, c.Debug, nil) })
 	case "ValidateWithConfiguration":
 		res = guard(func() (string, error) {
-			return pkg.ValidateWithConfiguration(profile, data, false, nil, clock0, config.DefaultReportConfiguration())
+			return pkg.ValidateWithConfiguration(profile, data, c.Debug, nil, clock0, config.DefaultReportConfiguration())
 		})
 	case "ValidateCompiled", "ValidateCompiledWithConfiguration":
 		q, err := c04Query(c.Profile)
@@ -356,10 +358,10 @@ func decideC04(c c04Case) ev.Verdict {
 			return ev.Violation("c04-profile-does-not-compile", "fixed declarative profile %d does not compile: %v", c.Profile, err)
 		}
 		if c.Entry == "ValidateCompiled" {
-			res = guard(func() (string, error) { return pkg.ValidateCompiled(q, data, false, nil) })
+			res = guard(func() (string, error) { return pkg.ValidateCompiled(q, data, c.Debug, nil) })
 		} else {
 			res = guard(func() (string, error) {
-				return pkg.ValidateCompiledWithConfiguration(q, data, false, nil, clock0, config.DefaultReportConfiguration())
+				return pkg.ValidateCompiledWithConfiguration(q, data, c.Debug, nil, clock0, config.DefaultReportConfiguration())
 			})
 		}
 	case "cli":
